@@ -5,7 +5,7 @@ from common import tlc, tlc_ok, tlc_must_fail, build_driver, judge, ToolError, l
 import eng_eval
 
 TIERS = {"quick": dict(mc="MC_Sync.cfg", trials=40, threads=8, iters=150, lock=(16, 8, 81), crowd=(5, 128, 40), lex=(6, 12, 400)),
-         "thorough": dict(mc="MC_Sync_thorough.cfg", trials=1500, threads=16, iters=300, lock=(300, 8, 162), crowd=(60, 160, 60), lex=(200, 16, 1000))}
+         "thorough": dict(mc="MC_Sync_thorough.cfg", trials=600, threads=16, iters=300, lock=(120, 8, 108), crowd=(30, 160, 40), lex=(100, 16, 600))}
 
 
 def distinct_events(events):
